@@ -58,7 +58,7 @@ def with_injector(p, faults, first):
 
 def run(ctx):
     quick = ctx.quick
-    nbase = 8 if quick else 60
+    nbase = 8 if quick else 30
     bases = [base_prog(ctx.rng, quick) for _ in range(nbase)]
     base_tr = K.run_many(ctx, bases)
     rej = K.validate_traces(ctx, bases, base_tr, tag="base")
